@@ -188,11 +188,19 @@ pub fn distance<IntT: for<'a> UInt<'a>>(
     }
 
     log::info!("Calculating distances");
+    #[cfg(feature = "verif-hooks")]
+    if threads > 1 {
+        crate::verif_trace::pool_init("distance", threads);
+    }
     if threads > 1 {
         rayon::ThreadPoolBuilder::new()
             .num_threads(threads)
             .build_global()
             .unwrap();
+    }
+    #[cfg(feature = "verif-hooks")]
+    if threads > 1 {
+        crate::verif_trace::pool_done("distance");
     }
     let distances = ska_array.distance(constant as f64);
 
